@@ -34,7 +34,7 @@ sys.path.insert(0, HERE)
 from rustfun_parse import FileIndex, Untranslatable  # noqa: E402
 from rustfun_tr import Translator  # noqa: E402
 
-FILES = ["src/bytes.rs", "src/raw/mod.rs", "src/raw/crc32.rs", "src/raw/node.rs"]
+FILES = ["src/bytes.rs", "src/raw/mod.rs", "src/raw/crc32.rs", "src/raw/node.rs", "src/automaton/mod.rs", "src/raw/ops.rs"]
 PINNED_PATH = os.path.join(HERE, "srcfuns_pinned.v")
 
 ANY_POS = [("start", "node.start", "usize"), ("v", "self.0", "u8"), ("sizes", "node.sizes", "PackSizes"),
@@ -104,6 +104,17 @@ TARGETS = [
     ("src_fn_StateAnyTrans_input_at", "src/raw/node.rs", "StateAnyTrans", "input", ("let", "at"), ANY_POS + [("i", "i", "usize")], False, "usize"),
     ("src_fn_StateAnyTrans_find_input_start", "src/raw/node.rs", "StateAnyTrans", "find_input", ("let", "start"), ANY_POS, False, "usize"),
     ("src_fn_StateAnyTrans_output_at", "src/raw/node.rs", "StateAnyTrans", "output", ("let", "at"), ANY_POS + [("i", "i", "usize")], True, "usize"),
+] + [
+    ("src_fn_%s_%s" % (o, f), "src/automaton/mod.rs", o, f, ("fn",), None, False, None)
+    for o, fs in (("Str", "start is_match can_match accept"), ("Subsequence", "start is_match can_match will_always_match accept"),
+                  ("AlwaysMatch", "start is_match can_match will_always_match accept"),
+                  ("StartsWith", "start is_match can_match will_always_match accept"),
+                  ("Union", "start is_match can_match will_always_match accept"),
+                  ("Intersection", "start is_match can_match will_always_match accept"),
+                  ("Complement", "start is_match can_match will_always_match accept"),
+                  ("Ref", "start is_match can_match will_always_match accept"))
+    for f in fs.split()
+] + [
     # Fst::new: the conditions of its four rejecting `if`s
     ("src_fn_Fst_new_too_short", "src/raw/mod.rs", "Fst", "new", ("cond", 1), FST_NEW, False, "bool"),
     ("src_fn_Fst_new_bad_version", "src/raw/mod.rs", "Fst", "new", ("cond", 2), FST_NEW, False, "bool"),
